@@ -26,6 +26,7 @@ def fmt_variants():
         "comment-quotes": lambda l, m, o: ("%s %s %s ; the user's \"note\" a/b" % (l, m, o)) if o else "%s %s %s" % (l, m, o),
         "lower": lambda l, m, o: "%s %s %s" % (l, m.lower(), o),
         "mixedcase": lambda l, m, o: "%s %s %s" % (l, m.capitalize(), o),
+        "numeric-comments": lambda l, m, o: "%s %s %s" % (l, m, o) if (m == "FCC" or not o) else "%s %s %s ;0 ends the list, 2 more" % (l, m, o),
         "unique-comments": None,       # a different comment on every line (set up in obligations)
         "tab-comment": lambda l, m, o: "%s\t\t%s  \t%s\t; x" % (l, m, o) if (o and m != "FCC") else "%s\t%s\t%s" % (l, m, o),
     }
@@ -36,6 +37,10 @@ RENAMES = {
     "digits": lambda n: n[0] + "9" + n[1:] + "7",
     "lower": lambda n: n.lower() + "x",
     "at": lambda n: n + "@1",
+    # two-letter names made of accumulator / index register letters (none of them is a register name)
+    "two-letter": lambda n: {"START": "AB", "PRINT": "BD", "MESSAGE": "DA", "FINISH": "XY", "CHROUT": "YX", "BEGIN": "BA", "LOOP": "DB",
+                             "TABLE": "BD", "VECT": "AB", "SUB": "AD", "LAST": "UY", "K1": "BD", "KOFF": "AB", "A1": "DA", "A2": "XY",
+                             "A3": "YX", "A4": "BA", "A5": "DB", "A6": "AD"}.get(n, n + "T"),
     "reglike": lambda n: {"START": "AX", "PRINT": "XY", "MESSAGE": "PCR1", "FINISH": "DP2", "CHROUT": "SU", "BEGIN": "BA", "LOOP": "YU",
                           "TABLE": "CCX", "VECT": "US", "SUB": "ADDA1", "LAST": "NOPE", "K1": "KX", "A1": "LDA1", "A2": "B2", "A3": "D3",
                           "A4": "S4", "A5": "U5", "A6": "PC6", "KOFF": "PCRSAV"}.get(n, n + "R"),
